@@ -23,6 +23,7 @@ RULE = (
     'distinct = SHA-1 of (states, n_parts).'
 )
 RULE += ' Added in rounds 6-10: nested splits; re-presented event tables; every Trajectory.split part round-tripped through displacements; objects whose diffusing-species trajectory is not the species filter of the full trajectory.'
+RULE += ' Round 16: re-presented event tables also with permuted named columns or an appended extra column.'
 RULE += ' Round 14: a quarter of the Jumps objects are built with a custom conversion rule (single-step moves only); their parts must follow the same rule.'
 ASSUMPTIONS = [
     "Jumps.split / rates raising ValueError('No jumps found') is accepted iff no jump of the whole lies completely inside some part's time bin (documented API behaviour)",
@@ -456,6 +457,16 @@ def run_unit(unit, rng, ctx):
                 ev2.index = ev2.index + int(rng.integers(1, 500))
             else:
                 ev2 = ev.sample(frac=1.0, random_state=int(rng.integers(2**31)))
+            extra_ = int(rng.integers(3))
+            if extra_ == 1:
+                # the named columns in another order
+                ev2 = ev2[[str(c_) for c_ in rng.permutation(list(ev2.columns))]]
+                how += '+columns_permuted'
+            elif extra_ == 2:
+                # a further (bookkeeping) column appended by the caller; 'time' is no longer the last column
+                ev2 = ev2.copy()
+                ev2['stop time'] = ev2['time'] + 1
+                how += '+extra_column'
             tr2 = Transitions(trajectory=tr.trajectory, diff_trajectory=tr.diff_trajectory, sites=tr.sites, events=ev2, states=np.asarray(tr.states).copy(), inner_states=np.asarray(tr.inner_states).copy())
             n3 = int(rng.integers(2, min(n_events, T - 1, 6) + 1)) if min(n_events, T - 1) >= 2 else 1
             if check_transitions_split(tr2, n3, ctx, what + f' [event table {how}]', wit) is not None:
